@@ -37,7 +37,7 @@ Proof.
   induction e as [a cs IH] using elem_ind2. intros n. rewrite srt_block_node, srt_p_count_node.
   destruct (e_kind a); try (cbn; lia).
   - exact (srt_blocks_count fmt b en cs IH n).
-  - cbv zeta. destruct (only_whitespace _); cbn; lia.
+  - cbv zeta. destruct (srt_blank _); cbn; lia.
 Qed.
 
 (* ---- counting through the filters ------------------------------------------------------------------------------------------- *)
@@ -227,7 +227,7 @@ Qed.
 
 (* ---- SubRip cues never overlap ---------------------------------------------------------------------------------------------------- *)
 Definition single_ok (t : Q) (next : option Q) (regions : list elem) (cs : list cue) : Prop :=
-  Forall (times_ok t next) cs /\ (length cs <= 1)%nat.
+  Forall (times_ok t next) cs /\ Forall (kept srt_blank) cs /\ (length cs <= 1)%nat.
 
 Lemma srt_loop_single fmt : forall seq n cs,
   forallb (fun x => strict_shape (snd x)) seq = true -> srt_loop fmt seq n = Ok cs -> cue_groups single_ok seq cs.
@@ -239,29 +239,25 @@ Proof.
     fold (next_time seq) in H. destruct (oq_ms (next_time seq)) as [en|] eqn:Een; [|discriminate]. cbn [bind] in H.
     destruct (srt_add_isd fmt b en (apply_filters srt_filters regions) n) as [x n1] eqn:Ex.
     destruct (srt_loop fmt seq n1) as [rest|] eqn:Er; [|discriminate]. cbn [bind] in H. injection H as <-.
-    constructor; [|exact (IH _ _ Hs2 Er)]. split; [|exact (srt_snapshot_single _ _ _ _ _ _ _ Hs1 Ex)].
+    constructor; [|exact (IH _ _ Hs2 Er)].
     destruct (srt_add_isd_spec _ _ _ _ _ _ _ Ex) as [Hat _]. apply q_ms_round in Eb. apply oq_ms_round in Een. subst b en.
-    eapply Forall_impl; [|exact Hat]. intros c [Hc1 Hc2]. split; [exact Hc1|]. destruct (next_time seq); cbn [option_map] in Hc2; [exact Hc2 | right; exact Hc2].
+    split; [|split; [|exact (srt_snapshot_single _ _ _ _ _ _ _ Hs1 Ex)]].
+    + eapply Forall_impl; [|exact Hat]. intros c (Hc1 & Hc2 & _). split; [exact Hc1|]. destruct (next_time seq); cbn [option_map] in Hc2; [exact Hc2 | right; exact Hc2].
+    + eapply Forall_impl; [|exact Hat]. intros c (_ & _ & Hc). exact Hc.
 Qed.
-Lemma finish_length esc : forall cs, (length (finish_cues esc cs) <= length cs)%nat.
+Lemma finish_single fill : forall seq cs, cue_groups single_ok seq cs -> cue_groups single_ok seq (finish_cues fill srt_blank cs).
 Proof.
-  induction cs as [|c cs IH]; [cbn; lia|]. destruct cs as [|c' cs'].
-  - cbn [finish_cues]. destruct (c_end c); [lia|]. destruct (only_whitespace _); cbn; lia.
-  - change (finish_cues esc (c :: c' :: cs')) with (c :: finish_cues esc (c' :: cs')). cbn [length] in *. lia.
-Qed.
-Lemma finish_single esc : forall seq cs, cue_groups single_ok seq cs -> cue_groups single_ok seq (finish_cues esc cs).
-Proof.
-  intros seq cs G. induction G as [|t regions seq cs rest [Hr Hl] G IH]; [constructor|].
+  intros seq cs G. induction G as [|t regions seq cs rest (Hr & Hk & Hl) G IH]; [constructor|].
   destruct rest as [|r0 rest'].
-  - rewrite app_nil_r. rewrite <- (app_nil_r (finish_cues esc cs)). constructor; [|exact G].
-    split; [|pose proof (finish_length esc cs); lia]. destruct (next_time seq) as [t'|] eqn:En.
-    + assert (E : finish_cues esc cs = cs).
-      { clear - Hr. induction cs as [|c cs IHc]; [reflexivity|]. inversion Hr as [|? ? Hc Hcs]; subst. destruct cs as [|c' cs'].
-        - cbn [finish_cues]. destruct Hc as [_ Hc]. rewrite Hc. reflexivity.
-        - change (finish_cues esc (c :: c' :: cs')) with (c :: finish_cues esc (c' :: cs')). rewrite (IHc Hcs). reflexivity. }
-      rewrite E. exact Hr.
-    + apply finish_times, Hr.
-  - rewrite finish_cues_app by discriminate. constructor; [split; assumption | exact IH].
+  - rewrite app_nil_r. rewrite <- (app_nil_r (finish_cues fill srt_blank cs)). constructor; [|exact G].
+    destruct (finish_last_group fill srt_blank t (next_time seq) (cue_blank_items _ _) cs Hr Hk) as (F1 & F2 & F3).
+    split; [exact F1|]. split; [exact F2|]. rewrite <- (map_length cue_chars), F3, map_length. exact Hl.
+  - rewrite finish_cues_app by discriminate. constructor; [|exact IH].
+    destruct (next_time seq) as [t'|] eqn:En; [|destruct seq as [|[t1 r1] seq']; [inversion G | discriminate En]].
+    assert (E : map (fun c => if fill then default_end c else c) cs = cs).
+    { destruct fill; [|apply map_id]. clear - Hr. induction cs as [|c cs IHc]; [reflexivity|]. inversion Hr as [|? ? Hc Hcs]; subst.
+      cbn [map]. rewrite (default_end_bounded _ _ _ Hc), (IHc Hcs). reflexivity. }
+    rewrite E. split; [exact Hr|]. split; assumption.
 Qed.
 
 (* an earlier cue ends no later than a later cue begins *)
@@ -270,7 +266,7 @@ Definition strictly_before (c1 c2 : cue) : Prop := forall e1, c_end c1 = Some e1
 Theorem single_groups_ordered : forall seq cs, cue_groups single_ok seq cs -> StronglySorted Qlt (map fst seq) ->
   Forall (fun c => c_end c <> None) cs -> ForallOrdPairs strictly_before cs.
 Proof.
-  intros seq cs G. induction G as [|t regions seq cs rest [Hr Hl] G IH]; intros Hs Hne; [constructor|].
+  intros seq cs G. induction G as [|t regions seq cs rest (Hr & _ & Hl) G IH]; intros Hs Hne; [constructor|].
   cbn [map fst] in Hs. inversion Hs as [|? ? Hs' Hlt]; subst. apply Forall_app in Hne as [Hne1 Hne2]. apply FOP_app; [|exact (IH Hs' Hne2)|].
   - destruct cs as [|c [|c' cs']]; [constructor | constructor; constructor | cbn [length] in Hl; lia].
   - intros c1 c2 H1 H2 e1 E1. rewrite Forall_forall in Hr. destruct (Hr c1 H1) as [_ He1].
@@ -290,3 +286,54 @@ Proof.
   - exact (sequence_sorted d seq Hd).
   - eapply Forall_impl; [|exact (srt_strings_spans _ _ _ Hs)]. intros c (e & He & _). rewrite He. discriminate.
 Qed.
+
+(* ---- every cue gets an end: the writers fail only on a collapsed interval ------------------------------------------------------ *)
+Definition has_end (c : cue) : Prop := c_end c <> None.
+Lemma default_end_has_end c : has_end (default_end c).
+Proof. unfold has_end, default_end. destruct (c_end c) eqn:E; [rewrite E|]; discriminate. Qed.
+Lemma has_end_unbounded cs : Forall has_end cs -> trig_unbounded cs = false.
+Proof.
+  intros H. unfold trig_unbounded. apply not_true_iff_false. intros E. apply existsb_exists in E as (c & Hc & E).
+  rewrite Forall_forall in H. specialize (H c Hc). unfold has_end in H. destruct (c_end c); [discriminate | contradiction].
+Qed.
+(* WebVTT: finish() reaches every cue *)
+Lemma finish_all_ends blank : forall cs, Forall (fun c => blank c = false) cs -> Forall has_end (finish_cues true blank cs).
+Proof.
+  induction cs as [|c cs IH]; intros H; [constructor|]. inversion H as [|? ? Hc Hcs]; subst. destruct cs as [|c' cs'].
+  - cbn [finish_cues]. destruct (c_end c) eqn:E; [constructor; [unfold has_end; rewrite E; discriminate | constructor]|].
+    rewrite Hc. constructor; [apply default_end_has_end | constructor].
+  - rewrite finish_cues_cons. constructor; [apply default_end_has_end | apply IH, Hcs].
+Qed.
+Theorem vtt_cues_bounded cfg seq cs css : vtt_cues cfg seq = Ok (cs, css) -> trig_unbounded cs = false.
+Proof.
+  intros H. unfold vtt_cues in H. destruct (vtt_filters cfg) as [fs|] eqn:Hfs; [|discriminate].
+  destruct (vtt_loop cfg fs seq (mkVttState 0 [])) as [[cs0 st]|] eqn:E; [|discriminate]. cbn [bind fst snd] in H. injection H as <- _.
+  apply has_end_unbounded, finish_all_ends.
+  pose proof (vtt_loop_spec cfg fs seq _ cs0 st E) as B. clear - B.
+  induction B as [|t regions seq b en cs rest _ _ [Hat _] _ IH]; [constructor|]. apply Forall_app. split; [|exact IH].
+  eapply Forall_impl; [|exact Hat]. intros x (_ & _ & Hx & _). exact Hx.
+Qed.
+(* SubRip: finish() looks at the last cue only, and the unbounded last interval has at most one *)
+Lemma finish_single_ends : forall seq cs, cue_groups single_ok seq cs -> Forall has_end (finish_cues false srt_blank cs).
+Proof.
+  intros seq cs G. induction G as [|t regions seq cs rest (Hr & Hk & Hl) G IH]; [constructor|].
+  destruct rest as [|r0 rest'].
+  - rewrite app_nil_r. destruct cs as [|c [|c' cs']]; [constructor | | cbn [length] in Hl; lia].
+    cbn [finish_cues]. inversion Hk as [|? ? [Kc _] _]; subst. destruct (c_end c) eqn:E; [constructor; [unfold has_end; rewrite E; discriminate | constructor]|].
+    rewrite Kc. constructor; [apply default_end_has_end | constructor].
+  - rewrite finish_cues_app by discriminate. rewrite map_id. apply Forall_app. split; [|exact IH].
+    destruct (next_time seq) as [t'|] eqn:En; [|destruct seq as [|[t1 r1] seq']; [inversion G | discriminate En]].
+    eapply Forall_impl; [|exact Hr]. intros c [_ Hc]. unfold has_end. rewrite Hc. discriminate.
+Qed.
+Theorem srt_cues_bounded d fmt seq cs :
+  doc_block_wf d = true -> isd_sequence d = Ok seq -> srt_cues fmt seq = Ok cs -> trig_unbounded cs = false.
+Proof.
+  intros Hw Hd Hc. unfold srt_cues in Hc. destruct (srt_loop fmt seq 0) as [cs0|] eqn:E; [|discriminate]. cbn [bind] in Hc.
+  injection Hc as <-. apply has_end_unbounded, (finish_single_ends seq). exact (srt_loop_single fmt seq 0 cs0 (sequence_strict d seq Hw Hd) E).
+Qed.
+(* hence: the writers return a string unless an interval collapses after rounding to the millisecond *)
+Theorem vtt_total_collapsed cfg seq cs css : vtt_cues cfg seq = Ok (cs, css) -> trig_collapsed cs = false -> exists out, vtt_of_seq cfg (Ok seq) = Ok out.
+Proof. intros Hc H1. exact (vtt_total cfg seq cs css Hc H1 (vtt_cues_bounded cfg seq cs css Hc)). Qed.
+Theorem srt_total_collapsed d fmt seq cs :
+  doc_block_wf d = true -> isd_sequence d = Ok seq -> srt_cues fmt seq = Ok cs -> trig_collapsed cs = false -> exists out, srt_of_seq fmt (Ok seq) = Ok out.
+Proof. intros Hw Hd Hc H1. exact (srt_total fmt seq cs Hc H1 (srt_cues_bounded d fmt seq cs Hw Hd Hc)). Qed.
